@@ -81,6 +81,10 @@ func feedOn(reuse *namedpipe.NamedPipeIngester, path string, delim byte, chunks 
 	if len(errK) > 0 {
 		cbErr = cbErrs[errK[0]]
 	}
+	stall := time.Duration(0) // errK[1]: milliseconds the FIRST callback takes (a consumer that falls behind)
+	if len(errK) > 1 {
+		stall = time.Duration(errK[1]) * time.Millisecond
+	}
 	_ = os.Remove(path)
 	if err := syscall.Mkfifo(path, 0o600); err != nil {
 		panic(err)
@@ -98,6 +102,9 @@ func feedOn(reuse *namedpipe.NamedPipeIngester, path string, delim byte, chunks 
 	go func() {
 		res.ret = npi.Ingest(ctx, path, delim, func(_ context.Context, s string) error {
 			res.calls = append(res.calls, s)
+			if stall > 0 && len(res.calls) == 1 {
+				time.Sleep(stall)
+			}
 			if failAt > 0 && len(res.calls) == failAt {
 				if cancelOnFail {
 					cancel()
@@ -226,6 +233,7 @@ type job struct {
 	cancel bool          // the failing callback finds the context cancelled when it returns its error
 	first  string        // if set: this stream was served first, to its end, by the same ingester value
 	errK   int           // index into cbErrs of the error the failing callback returns
+	stall  int           // milliseconds the first callback takes
 }
 
 func (j job) parts() []string {
@@ -269,6 +277,7 @@ func runC12(run *mc.Run) int {
 			Cancel bool     `json:"cancel_on_fail"`
 			First  string   `json:"first_stream"`
 			ErrK   int      `json:"err_kind"`
+			Stall  int      `json:"stall_ms"`
 		}
 		if _, err := mc.LoadReplay(run.Replay, &rp); err != nil || rp.Delim == 0 {
 			fmt.Println("cannot load replay:", err)
@@ -280,7 +289,7 @@ func runC12(run *mc.Run) int {
 			npi = &x
 			_ = feedOn(npi, filepath.Join(dir, "replay"), byte(rp.Delim), chunkBy(rp.First, 4096), 0, 0, false)
 		}
-		r := feedOn(npi, filepath.Join(dir, "replay"), byte(rp.Delim), rp.Writes, rp.FailAt, 0, rp.Cancel, rp.ErrK)
+		r := feedOn(npi, filepath.Join(dir, "replay"), byte(rp.Delim), rp.Writes, rp.FailAt, 0, rp.Cancel, rp.ErrK, rp.Stall)
 		r.want = cbErrs[rp.ErrK]
 		m := judge(strings.Join(rp.Writes, ""), byte(rp.Delim), rp.FailAt, r)
 		fmt.Printf("writes %q fail_at=%d cancel_on_fail=%v: callbacks %q returned %v: %s\n", short(rp.Writes), rp.FailAt, rp.Cancel, short(r.calls), r.ret, m)
@@ -315,7 +324,7 @@ func runC12(run *mc.Run) int {
 					_ = feedOn(&npi, path, j.delim, chunkBy(j.first, 4096), 0, 0, false)
 					r = feedOn(&npi, path, j.delim, parts, j.failAt, j.pause, j.cancel, j.errK)
 				} else {
-					r = feedOn(nil, path, j.delim, parts, j.failAt, j.pause, j.cancel, j.errK)
+					r = feedOn(nil, path, j.delim, parts, j.failAt, j.pause, j.cancel, j.errK, j.stall)
 				}
 				r.want = cbErrs[j.errK]
 				if r.hung {
@@ -333,7 +342,7 @@ func runC12(run *mc.Run) int {
 				smu.Unlock()
 				if m := judge(j.stream, j.delim, j.failAt, r); m != "" {
 					run.Violation("C12:"+j.class+":"+strings.Join(strings.Fields(m)[:2], "_"),
-						map[string]any{"writes": parts, "delim": int(j.delim), "fail_at": j.failAt, "cancel_on_fail": j.cancel, "first_stream": j.first, "err_kind": j.errK},
+						map[string]any{"writes": parts, "delim": int(j.delim), "fail_at": j.failAt, "cancel_on_fail": j.cancel, "first_stream": j.first, "err_kind": j.errK, "stall_ms": j.stall},
 						fmt.Sprintf("stream written as %d writes %q (delimiter %q, callback failing at %d): %s", len(parts), short(parts), j.delim, j.failAt, m))
 				}
 			}
@@ -382,6 +391,12 @@ func runC12(run *mc.Run) int {
 			emit(job{stream: stream, chunks: chunkBy(stream, cs), delim: '\n', class: "long-record"})
 		}
 	}
+	// (2a) records around and beyond one mebibyte (a cap somebody might put on a record): whole, in order, once
+	for _, l := range []int{1<<20 - 1, 1 << 20, 1<<20 + 1, 1310720} {
+		rec := strings.Repeat("m", l-1) + "y"
+		stream := "head\n" + rec + "\n" + "7 tail after the big one\n" + "unterminated"
+		emit(job{stream: stream, chunks: chunkBy(stream, 65536), delim: '\n', class: "mebibyte-record"})
+	}
 	// (3) callback error injected at each record index, with several partitions
 	for _, s := range []string{"a\nb\nc\nd\n", "a\n\n\nb\n", "aa\nbb\ncc"} {
 		for k := 1; k <= 5; k++ {
@@ -428,6 +443,15 @@ func runC12(run *mc.Run) int {
 		}
 		gen(nil)
 	}
+	// (3d) a consumer that falls far behind: 300 / 1 200 / 5 000 short records arrive in one write while the first
+	// callback takes 1.5 s (longer than any patience a read-ahead queue might have): every record still arrives
+	for _, nrec := range []int{300, 1200, 5000} {
+		var b strings.Builder
+		for i := 0; i < nrec; i++ {
+			fmt.Fprintf(&b, "rec-%05d\n", i)
+		}
+		emit(job{stream: b.String(), chunks: []string{b.String()}, delim: '\n', class: "callback-falls-behind", stall: 1500})
+	}
 	// (3c) a second stream served by the same ingester value after one that ended mid-record
 	for _, tail := range []int{1, 100, 4095, 4096, 4097, 5000, 12288, 70000} {
 		first := "head\n" + strings.Repeat("t", tail)
@@ -441,7 +465,7 @@ func runC12(run *mc.Run) int {
 	close(jobs)
 	wg.Wait()
 	cov := mc.Coverage{Level: "exploration", Evaluations: int(evals), Distinct: int(multi), Exhaustive: complete && skipped == 0, Samples: samples,
-		Rule:  fmt.Sprintf("the real NamedPipeIngester.Ingest on real FIFOs: every byte stream over {a,b,delimiter} of length <=%d x every one of the 2^(len-1) partitions into write(2) calls (FIONREAD handshake: each write is drained before the next), delimiters \\n and NUL; every stream of <=4 symbols over {NUL, 0xff, CR, blank, newline} x every partition; records of 4095..70000 bytes x chunk sizes {1,2,4095,4096,4097,whole}; a callback error at each record index (the callback's own error, io.EOF, context.Canceled, os.ErrClosed, io.ErrUnexpectedEOF; also with the context cancelled by the time the callback returns); a second stream served by the same ingester value after one that ended with an unterminated tail of 1..70000 bytes; writers that pause 0.3 s (thorough: 1.5 s, 5 s) between their writes, mid-record; unterminated tails and the empty stream. Oracle (partition-independent): callback arguments = the delimiter-terminated records in order (one trailing delimiter allowed), nothing after the last delimiter, callback error returned unchanged, end-of-stream returned as an error. distinct_nontrivial = runs whose stream was split over >=2 writes", n),
+		Rule:  fmt.Sprintf("the real NamedPipeIngester.Ingest on real FIFOs: every byte stream over {a,b,delimiter} of length <=%d x every one of the 2^(len-1) partitions into write(2) calls (FIONREAD handshake: each write is drained before the next), delimiters \\n and NUL; every stream of <=4 symbols over {NUL, 0xff, CR, blank, newline} x every partition; records of 4095..70000 bytes x chunk sizes {1,2,4095,4096,4097,whole}; records of 2^20-1, 2^20, 2^20+1 and 1.25 x 2^20 bytes; a callback error at each record index (the callback's own error, io.EOF, context.Canceled, os.ErrClosed, io.ErrUnexpectedEOF; also with the context cancelled by the time the callback returns); a second stream served by the same ingester value after one that ended with an unterminated tail of 1..70000 bytes; bursts of 300 / 1 200 / 5 000 records while the first callback takes 1.5 s; writers that pause 0.3 s (thorough: 1.5 s, 5 s) between their writes, mid-record; unterminated tails and the empty stream. Oracle (partition-independent): callback arguments = the delimiter-terminated records in order (one trailing delimiter allowed), nothing after the last delimiter, callback error returned unchanged, end-of-stream returned as an error. distinct_nontrivial = runs whose stream was split over >=2 writes", n),
 		Extra: map[string]any{"runs_per_class": classes, "max_stream_len": n}}
 	cov.Assumptions = []string{"kernel FIFO semantics; a write larger than the pipe buffer may be split by the kernel (affects only which partition was exercised, not the verdict)"}
 	return run.Finish(cov)
